@@ -220,6 +220,12 @@ def resize_rules(ck, rules):
                 # which case: does the argument involve arithmetic on the old value?
                 old = env.get("_old_val")
                 inner, casts = peel(arg)
+                scaled_true = bool([g for g in pf.guards if dotted(g[0]) == "self.scaled" and g[1]])
+                if scaled_true and not israw and "restore_scaled" in rules and not isinstance(inner, ast.BinOp) and dotted(inner) not in ("_old_val",) and env.get("_old_val") is not None \
+                        and not (isinstance(inner, ast.Constant)):
+                    bad(rules["restore_scaled"], "scaled objects are restored from the read map scale*code*2^-n_frac + bias computed with the old fraction length",
+                        "restores %s" % src(arg)[:70], ce.stmt, "a value read back after the sizes were changed combines the old codes with the new fraction length")
+                    continue
                 if isinstance(inner, ast.BinOp):
                     narrowing = [c for c in casts if c[0] in ("astype", "np.array", "map", "int_array") and c[1] not in (None, "object", "np.object_", "float", "np.float64", "complex")]
                     if narrowing and israw and "restore_raw" in rules:
@@ -262,6 +268,9 @@ def resize_rules(ck, rules):
                             "ext": "extended-precision indicator set from n_word >= threshold on every normal path",
                             "restore_raw": "restore re-scales the old code by 2^(new-old n_frac), raw",
                             "restore_scaled": "scaled restore goes through the read map"}[role] + " (%d paths)" % counts.get(role, 0))
+    if "restore_scaled" in rules and counts.get("restore_scaled", 0) == 0 and not [k for k in seen if k[0] == rules["restore_scaled"]]:
+        ck.bad(rules["restore_scaled"], f, "resize restores scaled objects through the read map (a path selected by self.scaled exists)", "no restore path distinguishes scaled objects", f.node,
+               "a raw re-store clears the scaled indicator: after any resize a scaled object reads back without scale and bias")
     if "nint" in rules and counts["nint"] == 0 and not [k for k in seen if k[0] == rules["nint"]]:
         raise AnalysisError("resize: n_int never checked")
     ck.extra["resize_paths"] = len(pfs)
